@@ -46,11 +46,174 @@ static bool doRoundTrip(Interp& I, const Step& s)
     return true;
 }
 
+// ---------------------------------------------------------------------------------------
+// C11: iteration and counting
+// ---------------------------------------------------------------------------------------
+static bool doIter(Interp& I, const Step& s)
+{
+    // iter src [mask tokens]
+    World& W = I.W;
+    if (s.size() < 2) { I.skip("iter-short"); return true; }
+    const int src = toInt(s[1]);
+    if (!I.liveSlot(src)) { I.skip("iter-operand"); return true; }
+    const Slot& S = W.slots[size_t(src)];
+    const int f = S.f;
+    const FSpec& FS = W.fs[f];
+    const Dom& D = W.domOf(f);
+    const int K = D.K();
+    forest* F = W.F[f];
+    for (auto& v : S.T) if (v.isUn()) { I.skip("iter-unspec"); return true; }
+    // mask
+    std::vector<int> mf(K + 1, -1), mt(K + 1, -1);
+    bool haveMask = s.size() > 2;
+    if (haveMask) {
+        if (int(s.size()) != 2 + (FS.rel ? 2 * K : K)) { I.skip("iter-mask-shape"); return true; }
+        for (int v = 1; v <= K; v++) {
+            int a = toInt(s[size_t(1 + v)]);
+            if (a < -1 || a >= D.sizes[v]) { I.skip("iter-mask-range"); return true; }
+            mf[v] = a;
+            if (FS.rel) {
+                int b = toInt(s[size_t(1 + K + v)]);
+                if (b < -2 || b >= D.sizes[v]) { I.skip("iter-mask-range"); return true; }
+                if (b == -2 && a >= 0) b = a;
+                mt[v] = b;
+            }
+        }
+    }
+    // expected: non-default points matching the mask, in lexicographic order by level
+    const Val tv = W.transparent(f);
+    struct Pt { std::vector<int> key; long idx; };
+    std::vector<Pt> want;
+    std::vector<int> from, to;
+    for (long idx = 0; idx < long(S.T.size()); idx++) {
+        const Val& v = S.T[size_t(idx)];
+        if (exactVal(v, tv) || (v.t == VR && v.d == 0.0)) continue;
+        W.decode(f, idx, from, to);
+        bool ok = true;
+        for (int x = 1; x <= K && ok; x++) {
+            if (mf[x] >= 0 && mf[x] != from[x]) ok = false;
+            if (FS.rel) {
+                if (mt[x] >= 0 && mt[x] != to[x]) ok = false;
+                if (mt[x] == -2 && to[x] != from[x]) ok = false;
+            }
+        }
+        if (!ok) continue;
+        Pt p; p.idx = idx;
+        for (int lvl = K; lvl >= 1; lvl--) {
+            int var = F->getVarByLevel(lvl);
+            p.key.push_back(from[var]);
+            if (FS.rel) p.key.push_back(to[var]);
+        }
+        want.push_back(p);
+    }
+    std::sort(want.begin(), want.end(), [](const Pt& a, const Pt& b) { return a.key < b.key; });
+    // library
+    minterm mask(F);
+    if (haveMask) {
+        for (int v = 1; v <= K; v++) {
+            int lvl = F->getLevelByVar(v);
+            if (FS.rel) mask.setVars(unsigned(lvl), mf[v], mt[v]);
+            else mask.setVar(unsigned(lvl), mf[v]);
+        }
+    }
+    size_t n = 0;
+    try {
+        dd_edge::iterator it = S.e->begin(haveMask ? &mask : nullptr);
+        for (; it; ++it) {
+            const minterm& m = *it;
+            if (n >= want.size()) return I.fail("C11.iter-extra", "iterator visits more assignments than the function has non-default points under the mask");
+            std::vector<int> key;
+            for (int lvl = K; lvl >= 1; lvl--) {
+                key.push_back(m.from(unsigned(lvl)));
+                if (FS.rel) key.push_back(m.to(unsigned(lvl)));
+            }
+            if (key != want[n].key) {
+                std::ostringstream o;
+                o << "visit #" << n << " is (";
+                for (int k : key) o << k << " ";
+                o << ") but the next non-default assignment in lexicographic order is (";
+                for (int k : want[n].key) o << k << " ";
+                o << ")";
+                return I.fail("C11.iter-order", o.str());
+            }
+            Val got = fromRangeval(m.getValue());
+            if (!sameVal(got, S.T[size_t(want[n].idx)]))
+                return I.fail("C11.iter-value", "iterator reports value " + showVal(got) + ", function value is " + showVal(S.T[size_t(want[n].idx)]));
+            n++;
+        }
+        if (n != want.size()) return I.fail("C11.iter-missing", "iterator stopped after " + std::to_string(n) + " of " + std::to_string(want.size()) + " assignments");
+        // exhausted iterator
+        if (bool(it)) return I.fail("C11.iter-end", "exhausted iterator converts to true");
+        bool threw = false;
+        try { const minterm& m = *it; (void) m; }
+        catch (MEDDLY::error& er) { threw = (er.getCode() == error::INVALID_ITERATOR); }
+        if (!threw) return I.fail("C11.iter-end", "dereferencing an exhausted iterator did not raise INVALID_ITERATOR");
+    } catch (MEDDLY::error& er) {
+        return I.fail("exception", std::string("iteration threw ") + er.getName());
+    }
+    I.R.labels.add("op.iter");
+    if (haveMask) I.R.labels.add("iter_mask");
+    if (haveMask && want.empty()) I.R.labels.add("iter_mask_matches_nothing");
+    if (want.size() >= 2 && want.size() < S.T.size()) I.R.labels.add("iter_proper_subset");
+    I.R.labels.add("iter_visits", long(n));
+    return true;
+}
+
+static bool doCounts(Interp& I, const Step& s)
+{
+    World& W = I.W;
+    if (s.size() < 2) { I.skip("counts-short"); return true; }
+    const int src = toInt(s[1]);
+    if (!I.liveSlot(src)) { I.skip("counts-operand"); return true; }
+    const Slot& S = W.slots[size_t(src)];
+    unsigned long nodes = 0, edges = 0;
+    countBelow(W, S.f, *S.e, nodes, edges);
+    unsigned long gn = S.e->getNodeCount();
+    unsigned long ge = S.e->getEdgeCount(false);
+    unsigned long gz = S.e->getEdgeCount(true);
+    if (gn != nodes) return I.fail("C11.node-count", "getNodeCount() = " + std::to_string(gn) + ", distinct nodes reachable = " + std::to_string(nodes));
+    if (ge != edges) return I.fail("C11.edge-count", "getEdgeCount(false) = " + std::to_string(ge) + ", non-transparent edges reachable = " + std::to_string(edges));
+    if (gz < ge) return I.fail("C11.edge-count", "getEdgeCount(true) < getEdgeCount(false)");
+    I.R.labels.add("op.counts");
+    if (nodes >= 5) I.R.labels.add("counts_5nodes");
+    return true;
+}
+
+// ---------------------------------------------------------------------------------------
+// C06: drain point -- release everything, clear caches, every node must be reclaimed
+// ---------------------------------------------------------------------------------------
+static bool doDrain(Interp& I, const Step& s)
+{
+    World& W = I.W;
+    (void) s;
+    for (size_t i = 0; i < W.slots.size(); i++) if (W.slots[i].live()) W.release(int(i));
+    for (size_t f = 0; f < W.F.size(); f++) if (W.F[f]) W.F[f]->removeAllComputeTableEntries();
+    for (size_t f = 0; f < W.F.size(); f++) {
+        forest* F = W.F[f];
+        if (!F) continue;
+        if (W.fs[f].del == 'N') continue;       // never-delete: no reclamation claim
+        long act = activeNodes(F), reach = reachableFromRoots(F);
+        if (act != reach) {
+            std::ostringstream o;
+            o << "forest " << f << " (" << (W.fs[f].del == 'P' ? "pessimistic" : "optimistic") << "): " << act
+              << " live nodes after releasing every user edge and clearing the caches, but only " << reach
+              << " are reachable from the remaining registered edges";
+            return I.fail("C06.leak", o.str());
+        }
+        if (F->getCurrentNumNodes() != act) return I.fail("C06.node-count", "getCurrentNumNodes() differs from the number of live nodes after the drain");
+    }
+    I.R.labels.add("drain_point");
+    return true;
+}
+
 bool Interp::doExtra(const Step& s, bool& handled)
 {
     handled = true;
     const std::string& op = s[0];
     if (op == "roundtrip") return doRoundTrip(*this, s);
+    if (op == "iter") return doIter(*this, s);
+    if (op == "counts") return doCounts(*this, s);
+    if (op == "drain") return doDrain(*this, s);
     handled = false;
     return true;
 }
